@@ -200,7 +200,7 @@ Lemma read_symbols_spec fuel r : G r -> r_ctx r <> [] -> (length (b_in (r_bits r
   fspec r (read_symbols api_next fuel r) (gpost r).
 Proof.
   intros Gr Nc Hf. pose proof (RInv_avail r (G_RInv r Gr)) as A. unfold read_symbols.
-  destruct (negb (r_type r =? TList)); [split; [apply wle_refl; exact A|split; [exact Gr|reflexivity]]|].
+  destruct (negb (r_type r =? TList) || r_is_null r); [split; [apply wle_refl; exact A|split; [exact Gr|reflexivity]]|].
   destruct (r_step_in_spec r Gr) as [W1 P1].
   destruct (r_step_in r) as [r1 [[|]| | |]]; cbn [fst snd] in *; try contradiction;
     [|split; [exact W1|exact Logic.I]|split; [exact W1|exact Logic.I]].
@@ -398,7 +398,7 @@ Proof.
     - exact H. }
   destruct (r_type r =? TSymbol) eqn:Ety; [|exact Rest].
   rewrite He. destruct (val_sym_type r Hg Ety) as [Ev|[t Ev]]; rewrite Ev; [exact Rest|].
-  destruct (tk_sid t =? 3)%Z; [|exact Rest].
+  destruct ((tk_sid t =? 3)%Z || _)%bool; [|exact Rest].
   destruct (r_lst r) as [[|t0]|]; apply Same.
 Qed.
 
